@@ -39,12 +39,7 @@ def repoIdx (cfg : Cfg) (s : St) (remote : Url → Bool) (loc : Url → OffIdx) 
 theorem offlineIndexes_cons (rule : SkipRule) (cfg : Cfg) (s : St) (remote : Url → Bool) (loc : Url → OffIdx)
     (u : Url) (rest : List Url) :
     offlineIndexes rule cfg s remote loc (u :: rest) =
-      match repoIdx cfg s remote loc u with
-      | .index b => (offlineIndexes rule cfg s remote loc rest).map fun l => (u, b) :: l
-      | r => if rule.skips (remote u) r then offlineIndexes rule cfg s remote loc rest else none := by
-  rw [offlineIndexes]
-  unfold repoIdx
-  split <;> rfl
+      offlineCons rule u (remote u) (repoIdx cfg s remote loc u) (offlineIndexes rule cfg s remote loc rest) := rfl
 
 /-- **the repaired rule drops no remote repository**: when the offline build gets its indexes at all, every
 configured remote repository contributed the index `fetchOffline` read for it -/
@@ -61,7 +56,7 @@ theorem offlineIndexes_every_remote {cfg : Cfg} {s : St} {remote : Url → Bool}
     cases hv : repoIdx cfg s remote loc v with
     | index b =>
       rw [hv] at h
-      simp only at h
+      simp only [offlineCons] at h
       cases hrest : offlineIndexes .localNotExist cfg s remote loc rest with
       | none => rw [hrest] at h; cases h
       | some l2 =>
@@ -77,7 +72,7 @@ theorem offlineIndexes_every_remote {cfg : Cfg} {s : St} {remote : Url → Bool}
           exact ⟨b2, List.mem_cons_of_mem _ hb2, hi⟩
     | notExist =>
       rw [hv] at h
-      simp only at h
+      simp only [offlineCons] at h
       cases hrv : remote v with
       | true => rw [hrv] at h; simp [SkipRule.skips] at h
       | false =>
@@ -88,7 +83,7 @@ theorem offlineIndexes_every_remote {cfg : Cfg} {s : St} {remote : Url → Bool}
         · exact ih l h u hu2 hr
     | failed =>
       rw [hv] at h
-      simp only at h
+      simp only [offlineCons] at h
       cases hrv : remote v <;> (rw [hrv] at h; simp [SkipRule.skips] at h)
 
 /-- … in the configured order, nothing else: over remote repositories only, the repositories of the indexes the
@@ -106,7 +101,7 @@ theorem offlineIndexes_remote_complete {cfg : Cfg} {s : St} {remote : Url → Bo
     cases hv : repoIdx cfg s remote loc v with
     | index b =>
       rw [hv] at h
-      simp only at h
+      simp only [offlineCons] at h
       cases hrest : offlineIndexes .localNotExist cfg s remote loc rest with
       | none => rw [hrest] at h; cases h
       | some l2 =>
@@ -114,8 +109,8 @@ theorem offlineIndexes_remote_complete {cfg : Cfg} {s : St} {remote : Url → Bo
         simp only [Option.map_some, Option.some.injEq] at h
         subst h
         simp [ih l2 (fun u hu => hall u (List.mem_cons_of_mem _ hu)) hrest]
-    | notExist => rw [hv, hrv] at h; simp [SkipRule.skips] at h
-    | failed => rw [hv, hrv] at h; simp [SkipRule.skips] at h
+    | notExist => rw [hv, hrv] at h; simp [offlineCons, SkipRule.skips] at h
+    | failed => rw [hv, hrv] at h; simp [offlineCons, SkipRule.skips] at h
 
 /-- a LOCAL repository whose index file is not there is skipped as before, under either rule -/
 theorem offlineIndexes_local_missing (rule : SkipRule) (cfg : Cfg) (s : St) (remote : Url → Bool) (loc : Url → OffIdx)
@@ -124,7 +119,7 @@ theorem offlineIndexes_local_missing (rule : SkipRule) (cfg : Cfg) (s : St) (rem
   rw [offlineIndexes_cons]
   have : repoIdx cfg s remote loc u = .notExist := by unfold repoIdx; rw [hl]; simpa using hm
   rw [this, hl]
-  cases rule <;> simp [SkipRule.skips]
+  cases rule <;> simp [offlineCons, SkipRule.skips]
 
 /-- the two rules differ ONLY where a remote repository has no entry directory: over repositories that were all
 cached (or are local) they give the same indexes -/
@@ -140,10 +135,10 @@ theorem offlineIndexes_rules_agree {cfg : Cfg} {s : St} {remote : Url → Bool} 
     rw [offlineIndexes_cons, offlineIndexes_cons, ih2]
     cases hv : repoIdx cfg s remote loc v with
     | index b => rfl
-    | failed => simp [SkipRule.skips]
+    | failed => simp [offlineCons, SkipRule.skips]
     | notExist =>
       cases hrv : remote v with
-      | false => simp [SkipRule.skips]
+      | false => simp [offlineCons, SkipRule.skips]
       | true =>
         exfalso
         have hd := hall v List.mem_cons_self hrv
